@@ -436,8 +436,14 @@ def build(prog):
     top = [build_node(run, n, "doist") for n in prog.get("doers", [])]
     for n in prog.get("pool", []):
         build_node(run, n, None)
-    kwa = dict(real=bool(prog.get("real", False)), limit=prog.get("limit"), doers=top,
-               tyme=prog.get("tyme", 0.0))
+    if prog.get("do_args"):
+        # settings handed to do()/ado() instead of the constructor (doers=, limit=, tyme=)
+        kwa = dict(real=bool(prog.get("real", False)))
+        run.do_kwa = dict(doers=top, limit=prog.get("limit"), tyme=prog.get("tyme", 0.0))
+    else:
+        kwa = dict(real=bool(prog.get("real", False)), limit=prog.get("limit"), doers=top,
+                   tyme=prog.get("tyme", 0.0))
+        run.do_kwa = {}
     if prog.get("tock") is not None:
         kwa["tock"] = prog["tock"]
     run.doist = PDoist(run, **kwa)
@@ -591,14 +597,14 @@ def execute(prog, failpoint_k=None, max_cycles=None, foreign_task=False):
                             await asyncio.sleep(0)
                     t = asyncio.ensure_future(other()) if foreign_task else None
                     try:
-                        await run.doist.ado()
+                        await run.doist.ado(**run.do_kwa)
                     finally:
                         if t:
                             t.cancel()
                     run.noise = noise["n"]
                 asyncio.run(main())
             else:
-                run.doist.do()
+                run.doist.do(**run.do_kwa)
         except Runaway:
             run.result = ("runaway", None)
             run.trace.append(("do-raise", "doist", run.doist.tyme, {"exc": "Runaway"}))
